@@ -95,7 +95,7 @@ SeqDict.methods["get"] = _seqdict_get
 @R.contract
 class CreateConnectionDecl(Contract):
     """Proxy.__pyroCreateConnection(): on normal return the proxy holds a fresh connection on which the handshake has been
-    completed (nothing outstanding, stream at a message boundary); any failure raises and leaves no connection.
+    completed (nothing outstanding, stream at a message boundary); any failure raises and leaves no connection, or (failure after the handshake was accepted) such a connection.
     (Declared interface; the handshake exchange itself is exercised by the native harness.)"""
     name = "Pyro5.client.Proxy.__pyroCreateConnection"
     props = ()
@@ -110,6 +110,12 @@ class CreateConnectionDecl(Contract):
         return VBool(True)
 
     def prepare_call(self, E, st, a, outcome):
+        if outcome is not None:
+            # a failure after the handshake was accepted (validation hook, metadata call) leaves the fully handshaken connection in place (verified for the body in
+            # contracts/client_connect.py): no connection, or a fresh message-aligned one
+            kept = new_connection(E, st, fresh_name("handshaken_conn"))
+            st.set(kept, "objectId", VOpaque(fresh("objectId", U)))
+            st.set(a["self"], "_pyroConnection", VOpt(fresh("no_connection_after_failed_connect", BoolS), kept))
         if outcome is None:
             conn = new_connection(E, st, fresh_name("newconn"))
             st.set(conn, "objectId", VOpaque(fresh("objectId", U)))
